@@ -32,6 +32,7 @@ COMPONENTS = {
 ASSUMPTIONS = [
     "the fake CLIs validate arguments like the real ones for the options used here (unknown option, missing value, script last)",
     "a scheduler that never produces accounting is not judged; finite accounting lag is",
+    "a job killed by the scheduler after it had stored its complete result may be reported complete (its correct result is returned); judged is only a kill that leaves no complete result",
 ]
 PROBES = ["requeue_issued", "lock_removed_before_requeue", "lock_left_at_requeue", "accounting_lag_seen", "user_jobname", "user_output", "user_error", "no_requeue", "workflow_via_scheduler", "payload_killed"]
 N = {"quick": 220, "thorough": 5000}
@@ -246,6 +247,14 @@ def run_case(case, ch, workdir):
             probe("requeue_issued")
             if any(val.get(k) != v for k, v in expected.items()):
                 violation(res, "wrong-output", sig, f"returned {val}, expected {expected}; {ctx}")
+        elif status == "ok" and results_ok and all(val.get(k) == v for k, v in expected.items()) and any(s in ("CANCELLED", "TIMEOUT", "PREEMPTED", "EVICTED") for s in final):
+            # the scheduler killed the job after it had stored its complete result: the
+            # worker returns that (correct) result - nothing is left to requeue
+            probe("killed_after_result_complete")
+        elif status == "ok" and results_ok and all(val.get(k) == v for k, v in expected.items()) and any(s in ("CANCELLED", "TIMEOUT", "PREEMPTED", "EVICTED") for s in final):
+            # the scheduler killed the job after it had stored its complete result: the
+            # worker returns that (correct) result - nothing is left to requeue
+            probe("killed_after_result_complete")
         elif any(s in ("CANCELLED", "TIMEOUT", "PREEMPTED", "EVICTED") for s in final):
             # a killed job that was never brought back
             if user.get("no-requeue"):
